@@ -172,6 +172,9 @@ def shards(tier, seed):
         out.append({'part': 'calls', 'family': family})
     out.append({'part': 'bids_trees'})
     out.append({'part': 'errors'})
+    out.append({'part': 'spm_paths'})
+    for ne in (2, 3):
+        out.append({'part': 'mne_held', 'n_epochs': ne})
     for ds in FMRIPREP_DATASETS:
         out.append({'part': 'fmriprep', 'dataset': ds})
     for lay in SEQ_LAYOUTS:
@@ -213,7 +216,7 @@ def shards(tier, seed):
                 out.append({'part': 'spm', 'total': total, 'runs': runs})
     if not thorough:
         # interleave the parts so that the slow ones (mne) start early
-        out.sort(key=lambda s: {'mne': 0, 'calls': 0, 'meadows': 1, 'bids': 2, 'bids_seq': 2, 'bids_trees': 2, 'fmriprep': -1, 'errors': -1, 'design': 3, 'spm': 4}[s['part']])
+        out.sort(key=lambda s: {'mne': 0, 'calls': 0, 'meadows': 1, 'bids': 2, 'bids_seq': 2, 'bids_trees': 2, 'fmriprep': -1, 'errors': -1, 'spm_paths': 2, 'mne_held': 0, 'design': 3, 'spm': 4}[s['part']])
     return out
 
 
@@ -232,6 +235,23 @@ def run_shard(shard, ctx):
             for i in range(len(menu)):
                 for j in range(len(menu)):
                     run_case({'part': 'calls', 'family': shard['family'], 'pair': [i, j]}, ctx, root)
+    elif part == 'spm_paths':
+        for group in SPM_DIR_SPELLINGS:
+            for spelling in range(len(SPM_DIR_SPELLINGS[group])):
+                for style in SPM_STORED_STYLES:
+                    for via in ('relocate_file', 'rawdata_files', 'get_betas'):
+                        run_case({'part': 'spm_paths', 'group': group, 'spelling': spelling, 'style': style,
+                                  'via': via}, ctx)
+    elif part == 'mne_held':
+        ne = shard['n_epochs']
+        for nc in ((1, 2) if ne == 2 else (2,)):
+            for held in MNE_HOLDERS:
+                run_case({'part': 'mne_held', 'n_epochs': ne, 'n_channel': nc, 'held': held, 'reject': False,
+                          'bad': []}, ctx)
+                for bad in ref.subsets(range(ne)):
+                    if len(bad) < ne:
+                        run_case({'part': 'mne_held', 'n_epochs': ne, 'n_channel': nc, 'held': held,
+                                  'reject': True, 'bad': list(bad)}, ctx)
     elif part == 'errors':
         with _scratch() as root:
             for kind in ERROR_KINDS:
@@ -331,6 +351,10 @@ def _run_case(case, ctx, root=None):
     elif part == 'errors':
         with _scratch(root) as d:
             _errors_case(case, ctx, d)
+    elif part == 'spm_paths':
+        _spm_paths_case(case, ctx)
+    elif part == 'mne_held':
+        _mne_held_case(case, ctx)
     elif part == 'calls':
         with _scratch(root) as d:
             _calls_case(case, ctx, d)
@@ -973,6 +997,137 @@ def _fmriprep_case(case, ctx, root):
                 mismatch('repr', text, tail)
         else:
             raise ValueError(acc)
+
+
+# ---------------------------------------------- SpmGlm: every spelling of one GLM directory
+def _spm_dir_spellings():
+    import pathlib
+    a = '/data/my proj/glm_firstlevel'
+    r = 'proj/glm_firstlevel'
+    return {'absolute': [a, a + '/', a + '/.', a + '//', '/data//my proj/glm_firstlevel', '/data/./my proj/glm_firstlevel/',
+                         '/data/other/../my proj/glm_firstlevel', pathlib.Path(a)],
+            'relative': [r, r + '/', './' + r, r + '/.', 'proj//glm_firstlevel', pathlib.Path(r)],
+            # a GLM directory named without any parent: the project is the working directory
+            'bare': ['glm_firstlevel', 'glm_firstlevel/', './glm_firstlevel']}
+
+
+SPM_DIR_SPELLINGS = _spm_dir_spellings()
+SPM_PROJECT = {'absolute': '/data/my proj', 'relative': 'proj', 'bare': '.'}
+# file names as SPM stores them on the machine that estimated the GLM (',<volume>' + two blanks)
+SPM_STORED_STYLES = {'posix': '/Users/jdoe/DoeLab Dropbox/the_proj/func/uas01_run%02d.nii,%d  ',
+                     'windows': 'c:\\bla\\dip\\the_proj\\func\\uas01_run%02d.nii,%d  ',
+                     'posix_subdir': '/mnt/x/the_proj/func/sub-01/run%02d.nii,%d  '}
+
+
+def _spm_paths_case(case, ctx):
+    """relocate_file / rawdata_files / the beta image paths must name the same location for every
+    spelling of the GLM directory: <project>/func/... with <project> the parent of the GLM directory"""
+    import posixpath
+    from unittest.mock import patch
+    from rsatoolbox.io import spm as rspm
+    ctx.case(case)
+    spelled = SPM_DIR_SPELLINGS[case['group']][case['spelling']]
+    project = SPM_PROJECT[case['group']]
+    template = SPM_STORED_STYLES[case['style']]
+    stored = [template % (r, v) for r in (1, 2) for v in (1, 12)]
+    tails = [t.replace('\\', '/') for t in stored]
+    tails = [t[t.index('func/'):] for t in tails]
+    want = [project + '/' + t for t in tails]
+    via = case['via']
+    sigp = 'SpmGlm.%s|%s-glm-dir' % (via, case['group'])
+
+    def same_place(got, exp):
+        gp, gsep, gv = str(got).rpartition(',')
+        ep, esep, ev = exp.rpartition(',')
+        return gv == ev and posixpath.normpath(gp) == posixpath.normpath(ep)
+
+    with ctx.guard(sigp, case):
+        nitools = _NitoolsStub(None)
+        glm = rspm.SpmGlm(spelled, nitools)
+        ctx.outcome(('spm-path', case['group'], via))
+        if via == 'relocate_file':
+            got = [glm.relocate_file(s_) for s_ in stored]
+        else:
+            stub = {'SPM': {'nscan': np.array([2, 2]), 'Vbeta': [dict(fname='beta_0001.nii'), dict(fname='beta_0002.nii')],
+                            'xY': {'P': list(stored)},
+                            'xX': {'name': ['Sn(1) a*bf(1)', 'Sn(2) a*bf(1)'], 'K': [dict(X0=np.ones((2, 1)) / np.sqrt(2))] * 2,
+                                   'iC': np.array([1, 2]), 'xKXs': dict(X=np.zeros((4, 2))), 'erdf': 1.0,
+                                   'W': np.eye(4), 'pKX': np.zeros((2, 4))}}}
+            with patch.object(rspm, 'loadmat', return_value=stub) as lm:
+                glm.get_info_from_spm_mat()
+                mat = str(lm.call_args[0][0])
+            if posixpath.normpath(mat) != posixpath.normpath(project + '/glm_firstlevel/SPM.mat'):
+                ctx.fail(sigp + '|SPM.mat-location', case, 'reads %r for directory %r' % (mat, str(spelled)))
+            if via == 'rawdata_files':
+                got = list(glm.rawdata_files)
+            else:
+                glm.get_betas('roi.nii')
+                got = list(nitools.calls[-1])
+                want = [project + '/glm_firstlevel/' + n for n in ('beta_0001.nii', 'beta_0002.nii', 'ResMS.nii')]
+                same_place = lambda g, e: posixpath.normpath(str(g)) == posixpath.normpath(e)   # noqa: E731
+        if len(got) != len(want) or not all(same_place(g, e) for g, e in zip(got, want)):
+            # a directory name without parent is outside what the docstring of relocate_file describes
+            # ('paths to directory containing SPM files'): recorded, not judged
+            (_Observer(ctx) if case['group'] == 'bare' else ctx).fail(sigp + '|other-location', case, 'GLM directory spelled %r: %r, expected the place %r' % (
+                str(spelled), got, want))
+
+
+# -------------------------------------------------- MNE: epochs in the ways a user holds them
+MNE_HOLDERS = ['raw_preload', 'raw_lazy']
+
+
+def _mne_held_case(case, ctx):
+    """mne.Epochs cut from a Raw, preloaded or lazily loaded, without and with a rejection threshold
+    that drops the epochs in `bad`: the dataset must be that of an independently built, preloaded
+    Epochs object after drop_bad (data, event codes, channel names, times)"""
+    import mne
+    from rsatoolbox.io import mne as rmne
+    mne.set_log_level('error')
+    ne, nc, bad = case['n_epochs'], case['n_channel'], case['bad']
+    ctx.case(case, nontrivial=bool(bad) or case['held'] == 'raw_lazy')
+    g = rng_for(ctx.seed, 'mne_held', ne, nc)
+    names = CH_NAMES[:nc]
+    sfreq = 100.0
+    info = mne.create_info(list(names), sfreq, 'eeg')
+    signal = np.round(g.normal(size=(nc, 150 * (ne + 1))), 3) * 1e-6
+    samples = [100 + 150 * i for i in range(ne)]
+    for i in bad:
+        signal[:, samples[i] + 2:samples[i] + 6] += 1e-3            # an artefact inside epoch i
+    events = np.array([[s_, 0, (13, 11, 12)[i % 3]] for i, s_ in enumerate(samples)])
+    reject = dict(eeg=1e-4) if case['reject'] else None
+
+    def make(preload):
+        raw = mne.io.RawArray(signal.copy(), info.copy())
+        return mne.Epochs(raw, events.copy(), tmin=-0.05, tmax=0.1, baseline=None, reject=reject, preload=preload)
+
+    want = make(True)
+    want.drop_bad()
+    want_data = want.get_data()
+    want_codes = [int(v) for v in want.events[:, 2]]
+    kept = [i for i in range(ne) if i not in bad]
+    if want_codes != [(13, 11, 12)[i % 3] for i in kept]:
+        raise AssertionError('harness: the reference epochs are %r, planned %r' % (want_codes, kept))
+    sigp = 'mne.dataset_from_epochs|held=%s,%s' % (case['held'], 'some-epochs-rejected' if bad else (
+        'reject-threshold' if reject else 'no-rejection'))
+    with ctx.guard(sigp, case):
+        ds = rmne.dataset_from_epochs(make(case['held'] == 'raw_preload'))
+        meas = np.asarray(ds.measurements)
+        ctx.outcome(('mne-held', case['held'], len(bad), ne))
+        if meas.shape != want_data.shape:
+            ctx.fail(sigp + '|shape', case, 'measurements %r, epochs %r' % (meas.shape, want_data.shape))
+            return
+        if not np.array_equal(meas, want_data):
+            ctx.fail(sigp + '|data', case, 'measurements differ from the epochs data (max abs dev %g)'
+                     % float(np.abs(meas - want_data).max()))
+        ev = ds.obs_descriptors.get('event')
+        if ev is None or [int(v) for v in ev] != want_codes:
+            ctx.fail(sigp + '|event-codes', case, 'event %r, the epochs that remain have %r' % (ev, want_codes))
+        ch = ds.channel_descriptors.get('name')
+        if ch is None or [str(v) for v in ch] != names:
+            ctx.fail(sigp + '|channel-names', case, 'name %r, channels %r' % (ch, names))
+        tm = ds.time_descriptors.get('time')
+        if tm is None or not np.array_equal(np.asarray(tm, dtype=float), np.asarray(want.times, dtype=float)):
+            ctx.fail(sigp + '|times-not-the-epochs-times', case, 'time %r, epochs.times %r' % (tm, want.times.tolist()))
 
 
 # ------------------------------------------------ documented refusals (docstring 'Raises:')
